@@ -51,6 +51,7 @@ struct Options {
     std::string only_op;     // filter
     uint64_t seed = 1;
     bool thorough = false;
+    bool sweep = false;      // exhaustive 2^32 sweeps (thorough tier; the orchestrator enables them for a subset of the builds)
     bool san = false;
     double scale = 1.0;      // workload scale (san builds get 0.1)
 };
@@ -63,6 +64,7 @@ inline void parse_args(int argc, char** argv) {
         auto next = [&]() -> std::string { return (i + 1 < argc) ? std::string(argv[++i]) : std::string(); };
         if (a == "--out") o.out = next();
         else if (a == "--tier") o.tier = next();
+        else if (a == "--sweep") o.sweep = true;
         else if (a == "--seed") o.seed = std::strtoull(next().c_str(), nullptr, 0);
         else if (a == "--property") o.prop = next();
         else if (a == "--only") {
